@@ -46,6 +46,11 @@ CHECKS = {
             "Generated histories mixing writes, flushes, rotations, external rename/remove + reopen_output, and reset_flw between up to three families (refused resets with another write mode included) in all synchronous write modes; afterwards every record must be found exactly once (unless it sat in an externally removed file), in increasing order inside every file and family, renamed files must hold a contiguous range ending right before their reopen, and records after reopen/reset must be in the original/new family. Search, not proof.",
             "records between an external rename and reopen are generated only without rotation; records in externally removed files are unobservable",
             "DESIGN.md 4/C18"),
+    "C19": ("fault_enumeration",
+            "exhaustive single-fault injection (plus sampled bursts) at the file-system hook points of proptest-generated histories, with a stream/report/recovery oracle",
+            "For every generated history all hits of the fault-capable points are traced and each is failed once in a fresh run (exhaustive per history), plus bursts of 2-5 consecutive failures; oracle: no panic, intact lines, order kept, only records whose own write (or the writer's initialisation during their call) failed may be missing, failures of write/rename/open are reported on the error channel, and a fault-free tail (record, rotation, record) ends in two different files. Exhaustive over single faults of each explored history; histories are sampled.",
+            "faults are injected at hook points directly before the real call (the call itself is skipped); Direct write mode only; real partial writes / ENOSPC mid-write are not modelled",
+            "DESIGN.md 4/C19"),
     "C20": ("exploration",
             "reference renderers + JSON decode round trip over proptest-generated records, virtual ticking clock for the one-timestamp clause",
             "Generated records (hostile message text, optional location fields, key-values, recursive Display arguments) through every provided format function, both line endings, all write modes; file bytes must equal reference rendering + exactly one line ending per record (inner records first), coloured output minus SGR sequences must equal the plain rendering, JSON must be one parsable line decoding to the generated values, and all outputs of a record must show the timestamp the recording writer saw (clock advancing 1 us per reading). Search, not proof.",
